@@ -84,7 +84,8 @@ Proof.
 Qed.
 Lemma get_pop_cur c r : c_cur (fst (get_pop c r)) = c_cur c.
 Proof.
-  unfold get_pop. destruct (dget (rs_seq r) (c_store c)); [|reflexivity]. cbn [fst]. destruct (is_submit (e_msg e)); [|reflexivity].
+  unfold get_pop. destruct (dget (rs_seq r) (c_store c)); [|reflexivity]. destruct (negb (answers r (e_msg e))); [reflexivity|].
+  cbn [fst]. destruct (is_submit (e_msg e)); [|reflexivity].
   cbn [with_store c_seg c_stat]. destruct (dget (rs_seq r) (c_seg c)) as [[ref sseq]|]; [|reflexivity]. destruct (dget ref (c_stat c)); reflexivity.
 Qed.
 Lemma get_segmented_cur c sq b : c_cur (fst (fst (get_segmented c sq b))) = c_cur c.
@@ -98,14 +99,26 @@ Proof.
     pose proof (cumulated_cur c ref ss) as H. destruct (cumulated c ref ss) as [c3 code]. cbn [fst] in *. exact H.
 Qed.
 
+Lemma answers_submit r m :
+  is_submit m = true -> (rs_cmd r = SmppCommand_SUBMIT_SM_RESP \/ rs_cmd r = SmppCommand_GENERIC_NACK) -> answers r m = true.
+Proof.
+  unfold is_submit, answers. intros Hm [E|E]; rewrite E.
+  - apply Z.eqb_eq in Hm. rewrite Hm. apply orb_true_iff. right.
+    assert (lookup SmppCommand_SUBMIT_SM command_response_map = Some SmppCommand_SUBMIT_SM_RESP) as -> by reflexivity. apply Z.eqb_refl.
+  - rewrite Z.eqb_refl. reflexivity.
+Qed.
+
 Lemma get_pop_frame c r :
   c_ttl (fst (get_pop c r)) = c_ttl c
   /\ match dget (rs_seq r) (c_store c) with
      | None => get_pop c r = (c, None)
-     | Some e => snd (get_pop c r) = Some e /\ c_store (fst (get_pop c r)) = ddel (rs_seq r) (c_store c)
+     | Some e => if answers r (e_msg e)
+                 then snd (get_pop c r) = Some e /\ c_store (fst (get_pop c r)) = ddel (rs_seq r) (c_store c)
+                 else get_pop c r = (c, None)
      end.
 Proof.
   unfold get_pop. destruct (dget (rs_seq r) (c_store c)) as [e|]; [|split; reflexivity].
+  destruct (answers r (e_msg e)); cbn [negb]; [|split; reflexivity].
   cbn [fst snd]. destruct (is_submit (e_msg e)); [|repeat split; reflexivity].
   cbn [with_store c_seg c_stat].
   destruct (dget (rs_seq r) (c_seg c)) as [[ref sseq]|]; [|repeat split; reflexivity].
@@ -191,7 +204,7 @@ Proof.
     + (* get: pop, then a new sweep *)
       pose proof (get_pop_frame (g_corr g) r) as [Hf1 Hf2].
       destruct (get_pop (g_corr g) r) as [c1 oe] eqn:Egp. cbn [fst snd] in Hf1, Hf2.
-      destruct (dget (rs_seq r) (c_store (g_corr g))) as [e|] eqn:Eg.
+      destruct (dget (rs_seq r) (c_store (g_corr g))) as [e|] eqn:Eg; [destruct (answers r (e_msg e))|].
       * destruct Hf2 as [-> Hst]. cbn [expired_ids got_ids app]. split; [|intros x [E|[]]; discriminate].
         unfold GI. cbn [g_corr g_calls g_next]. split; [congruence|]. rewrite Hst.
         split; [apply dkeys_ddel_NoDup; exact Hnd|]. split.
@@ -202,6 +215,12 @@ Proof.
               intros key e' He _ _. eapply In_dkeys; eauto.
            ++ destruct (Hsw t' k' Hin) as [Hb Hk]. split; [exact Hb|].
               intros key e' He. apply Hk. eapply ddel_subset; eauto.
+      * injection Hf2 as -> ->. cbn [expired_ids got_ids app]. split; [|intros x [E|[]]; discriminate].
+        unfold GI. cbn [g_corr g_calls g_next]. split; [exact Httl|]. split; [exact Hnd|]. split; [exact Hcnt|].
+        intros t' k' Hin. apply dset_In in Hin as [E|Hin].
+        -- injection E as _ ->. cbn [k_bound k_sweep sweep_start sw_keys sw_now]. split; [lia|].
+           intros key e' He _ _. eapply In_dkeys; eauto.
+        -- apply (Hsw t' k' Hin).
       * injection Hf2 as -> ->. cbn [expired_ids got_ids app]. split; [|intros x [E|[]]; discriminate].
         unfold GI. cbn [g_corr g_calls g_next]. split; [exact Httl|]. split; [exact Hnd|]. split; [exact Hcnt|].
         intros t' k' Hin. apply dset_In in Hin as [E|Hin].
